@@ -424,6 +424,10 @@ func (b Browse) ServeHTTP(w http.ResponseWriter, r *http.Request) (int, error) {
 		u.Path = "/"
 	}
 	if u.Path[len(u.Path)-1] != '/' {
+		for strings.HasPrefix(u.Path, "//") {
+			// prevent path-based open redirects
+			u.Path = strings.TrimPrefix(u.Path, "/")
+		}
 		u.Path += "/"
 		http.Redirect(w, r, u.String(), http.StatusMovedPermanently)
 		return http.StatusMovedPermanently, nil
@@ -607,6 +611,10 @@ func (b Browse) ServeArchive(w http.ResponseWriter, r *http.Request, dirPath str
 
 		if path == dirPath {
 			return nil // Skip the containing directory
+		}
+
+		if bc.Fs.IsHidden(info) {
+			return nil // Hidden files are not listed, so they are not archived either
 		}
 
 		var file io.ReadCloser
